@@ -166,8 +166,11 @@ def _convolve_model_dir_2(model_dir, filters, overwrite=False, memmap=True):
 
             response = f.response.astype(sed_val.dtype)
 
-            fluxes[i].flux[:, i_ap] = np.sum(sed_val * response, axis=1) * val_factor
-            fluxes[i].error[:, i_ap] = np.sqrt(np.sum((sed_unc * response) ** 2, axis=1)) * unc_factor
+            # val_factor/unc_factor convert the bare values to mJy (multiplying
+            # the Quantity by the factor and assigning it to an array in mJy
+            # would apply the conversion twice)
+            fluxes[i].flux[:, i_ap] = np.sum(sed_val.value * response, axis=1) * val_factor * u.mJy
+            fluxes[i].error[:, i_ap] = np.sqrt(np.sum((sed_unc.value * response) ** 2, axis=1)) * unc_factor * u.mJy
 
     for i, f in enumerate(binned_filters):
 
